@@ -1,0 +1,46 @@
+//go:build verif
+
+package tsdb
+
+import (
+	"github.com/lindb/lindb/kv"
+	"github.com/lindb/lindb/tsdb/tblstore/metricsdata"
+)
+
+// verifC11Flusher wraps the metric data flusher that dataFamily.flushMemoryDatabase creates.
+type verifC11Flusher struct {
+	metricsdata.Flusher
+	afterCommit func()
+}
+
+// Close commits the new file (the wrapped Close) and then calls afterCommit: at that point the
+// file is visible in the family's current version while the flushed memory database is still the
+// family's immutable memory database.
+func (f *verifC11Flusher) Close() error {
+	err := f.Flusher.Close()
+	if f.afterCommit != nil {
+		f.afterCommit()
+	}
+	return err
+}
+
+// VerifC11SetFlushHooks installs two callbacks that run on the flushing goroutine inside
+// dataFamily.Flush / Close (through the package's own newMetricDataFlusher seam):
+// beforeWrite right after the mutable memory database became the immutable one and before any
+// data is written to the new file, afterCommit right after the file was committed and before the
+// immutable memory database is closed and dropped. Verification hook of property C11 (queries
+// concurrent with a flush, sequentialised at the two points of the swap). restore removes them.
+func VerifC11SetFlushHooks(beforeWrite, afterCommit func()) (restore func()) {
+	old := newMetricDataFlusher
+	newMetricDataFlusher = func(kvFlusher kv.Flusher) (metricsdata.Flusher, error) {
+		if beforeWrite != nil {
+			beforeWrite()
+		}
+		fl, err := old(kvFlusher)
+		if err != nil {
+			return nil, err
+		}
+		return &verifC11Flusher{Flusher: fl, afterCommit: afterCommit}, nil
+	}
+	return func() { newMetricDataFlusher = old }
+}
